@@ -17,7 +17,7 @@ typedef struct {
 	int kind;                 /* 0 encoder, 1 decoder */
 	cfg_t c; uint32_t n; int api, finish, cbmode; uint32_t nsub; uint32_t sub[2 * MAXN];
 	/* runtime */
-	int pc, nsteps; of_session_t *ses; uint8_t *sym[MAXN]; void *tab[MAXN]; void *stab[MAXN];
+	int pc, nsteps, configured; of_session_t *ses; uint8_t *sym[MAXN]; void *tab[MAXN]; void *stab[MAXN];
 	void *cbbuf[MAXN]; uint64_t cbacc; int cbn; int cbmode_rt;
 	obs_t log[2 * MAXN + 16]; int nlog;
 } script_t;
@@ -33,13 +33,14 @@ static void gen_cfg(rng_t *r, cfg_t *c)
 	c->L = Ls[rng_below(r, 5)];
 	switch (rng_below(r, 10)) {
 	case 0: case 1: c->codec = 1; c->k = 1 + rng_below(r, 12); c->r = 1 + rng_below(r, 8); break;
-	case 2: c->codec = 2; c->m = 8; c->k = 1 + rng_below(r, 12); c->r = 1 + rng_below(r, 8); break;
+	case 2: c->codec = 2; c->m = 8; c->k = 1 + rng_below(r, 9); c->r = 1 + rng_below(r, 6); break;
 	case 3: c->codec = 2; c->m = 4; c->k = 1 + rng_below(r, 8); c->r = 1 + rng_below(r, 15 - c->k > 6 ? 6 : 15 - c->k); break;
 	case 4: { static const uint32_t kr[][2] = { {4,4},{6,5},{9,6},{2,3},{12,7},{8,6} }; unsigned i = rng_below(r, 6); c->codec = 5; c->k = kr[i][0]; c->r = kr[i][1]; break; }
 	default: c->codec = 3; c->k = 1 + rng_below(r, 20); c->r = 3 + rng_below(r, 14); c->N1 = 3 + rng_below(r, 4); if (c->N1 > c->r) c->N1 = c->r;
 		 c->seed = rng_below(r, 4) == 0 ? 1 : 1 + rng_below(r, 2147483646u); break;
 	}
 }
+static const uint32_t Ls_twin[] = { 1, 4, 8, 13, 32 };
 static int gen_scripts(uint64_t caseseed, script_t *S)
 {
 	rng_t r = rng_make(caseseed, 12, 12);
@@ -48,7 +49,18 @@ static int gen_scripts(uint64_t caseseed, script_t *S)
 		script_t *s = &S[i]; memset(s, 0, sizeof *s);
 		gen_cfg(&r, &s->c);
 		/* make same-codec neighbours likely: LDPC sessions with different seeds/N1 next to each other */
-		if (i > 0 && rng_below(&r, 3) == 0) { s->c = S[i - 1].c; if (s->c.codec == 3) { s->c.seed = 1 + rng_below(&r, 2147483646u); s->c.N1 = 3 + rng_below(&r, 3); if (s->c.N1 > s->c.r) s->c.N1 = s->c.r; } }
+		if (i > 0 && rng_below(&r, 2) == 0) {
+			/* near-twin of an earlier script: the same configuration with exactly one field changed. Process-global state
+			 * keyed on too few fields (a cache, a lazily built table) shows up between such neighbours. */
+			s->c = S[rng_below(&r, (uint32_t)i)].c;
+			switch (rng_below(&r, 5)) {
+			case 0: if (s->c.codec == 3) s->c.seed = 1 + rng_below(&r, 2147483646u); else if (s->c.codec == 1) { s->c.codec = 2; s->c.m = 8; } else if (s->c.codec == 2 && s->c.m == 8) { s->c.codec = 1; s->c.m = 0; } break;
+			case 1: if (s->c.codec == 3) { s->c.N1 = 3 + rng_below(&r, 4); if (s->c.N1 > s->c.r) s->c.N1 = s->c.r; } else if (s->c.codec == 2 && s->c.k + s->c.r <= 15) s->c.m = s->c.m == 4 ? 8 : 4; break;
+			case 2: s->c.L = Ls_twin[rng_below(&r, 5)]; break;
+			case 3: if (s->c.codec == 2 && s->c.k + s->c.r <= 15) s->c.m = s->c.m == 4 ? 8 : 4; else if (s->c.codec != 5 && s->c.r > 3) s->c.r--; break;
+			default: break;   /* identical twin */
+			}
+		}
 		s->n = s->c.k + s->c.r;
 		s->kind = (int)rng_below(&r, 3) == 0 ? 0 : 1;
 		if (s->kind == 1) {
@@ -100,11 +112,11 @@ static void script_step(script_t *s)
 {
 	of_status_t st; char pb[32]; uint32_t k = s->c.k; int pc = s->pc++;
 	if (pc == 0) { st = of_create_codec_instance(&s->ses, (of_codec_id_t)s->c.codec, s->kind ? OF_DECODER : OF_ENCODER, 0); observe(s, CL_CREATE, st, 0); return; }
-	if (pc == 1) { cfg_params(&s->c, pb); st = of_set_fec_parameters(s->ses, (of_parameters_t *)pb); observe(s, CL_SETP, st, 0); if (st != OF_STATUS_OK) s->pc = s->nsteps - 1; return; }
+	if (pc == 1) { cfg_params(&s->c, pb); st = of_set_fec_parameters(s->ses, (of_parameters_t *)pb); observe(s, CL_SETP, st, 0); if (st != OF_STATUS_OK) s->pc = s->nsteps - 1; else s->configured = 1; return; }
 	if (pc == s->nsteps - 1) {
 		/* decoded symbols belong to the application: collect them before release */
 		void *mine[MAXN]; int nm = 0;
-		if (s->kind == 1) { for (uint32_t i = 0; i < k; i++) s->stab[i] = NULL; if (of_get_source_symbols_tab(s->ses, s->stab) == OF_STATUS_OK) for (uint32_t i = 0; i < k; i++) if (s->stab[i] && s->stab[i] != (void *)s->sym[i] && s->stab[i] != s->cbbuf[i]) mine[nm++] = s->stab[i]; }
+		if (s->kind == 1 && s->configured) { for (uint32_t i = 0; i < k; i++) s->stab[i] = NULL; if (of_get_source_symbols_tab(s->ses, s->stab) == OF_STATUS_OK) for (uint32_t i = 0; i < k; i++) if (s->stab[i] && s->stab[i] != (void *)s->sym[i] && s->stab[i] != s->cbbuf[i]) mine[nm++] = s->stab[i]; }
 		st = of_release_codec_instance(s->ses); s->ses = NULL; observe(s, CL_RELEASE, st, 0);
 		for (int i = 0; i < nm; i++) free(mine[i]);
 		for (uint32_t i = 0; i < k; i++) if (s->cbbuf[i]) { free(s->cbbuf[i]); s->cbbuf[i] = NULL; }
@@ -142,7 +154,7 @@ static int prepare_blocks(script_t *S, int m, rng_t *r)
 		(void)b; (void)r;
 		if (of_create_codec_instance(&e, (of_codec_id_t)s->c.codec, OF_ENCODER, 0) != OF_STATUS_OK) ok = 0;
 		cfg_params(&s->c, pb);
-		if (ok && of_set_fec_parameters(e, (of_parameters_t *)pb) != OF_STATUS_OK) ok = 0;
+		if (ok && of_set_fec_parameters(e, (of_parameters_t *)pb) != OF_STATUS_OK) { of_release_codec_instance(e); g_prop = sv; continue; }   /* a rejected twin: its script sees the same rejection in both runs */
 		for (uint32_t x = 0; x < s->n; x++) tab[x] = s->sym[x];
 		for (uint32_t x = s->c.k; ok && x < s->n; x++) if (of_build_repair_symbol(e, tab, x) != OF_STATUS_OK) ok = 0;
 		if (e) of_release_codec_instance(e);
@@ -207,8 +219,10 @@ static void one_case(uint64_t caseseed, int merge_style, long unit, long idx)
 	uint64_t order_hash = 7; int total = 0, done = 0, rr = 0; int block = 1 + (int)rng_below(&r, 4);
 	for (int i = 0; i < m; i++) total += S[i].nsteps;
 	int pairs[8][8]; memset(pairs, 0, sizeof pairs); int last = -1;
-	while (done < total) {
-		int i;
+	for (;;) {
+		int i, left = 0;
+		for (int q = 0; q < m; q++) left += S[q].pc < S[q].nsteps;     /* a rejected configuration shortens its script */
+		if (!left) break;
 		if (merge_style == 0) { do i = (int)rng_below(&r, (uint32_t)m); while (S[i].pc >= S[i].nsteps); }                 /* uniformly random merge */
 		else if (merge_style == 1) { while (S[rr % m].pc >= S[rr % m].nsteps) rr++; i = rr % m; rr++; }                      /* strict round robin: maximal interleaving */
 		else { while (S[rr % m].pc >= S[rr % m].nsteps) rr++; i = rr % m; if (--block <= 0) { rr++; block = 1 + (int)rng_below(&r, 4); } }   /* bursts of 1..4 calls */
